@@ -69,35 +69,35 @@ var OutcomeNames = [...]string{"ok", "error-stay", "error-state", "silent", "und
 
 // TaskScript is the behaviour the harness gives a task (by role name).
 type TaskScript struct {
-	StartDelay  time.Duration
-	StartFails  bool                // TASK_FAILED instead of TASK_RUNNING
-	NeverStarts bool                // no status at all
-	OnCommand   map[string]Outcome  // transition event -> outcome (default OK)
-	ReplyDelay  time.Duration
-	HookExit    int                 // hook / basic task: exit code reported when triggered
+	StartDelay          time.Duration
+	StartFails          bool               // TASK_FAILED instead of TASK_RUNNING
+	NeverStarts         bool               // no status at all
+	OnCommand           map[string]Outcome // transition event -> outcome (default OK)
+	ReplyDelay          time.Duration
+	HookExit            int // hook / basic task: exit code reported when triggered
 	HookNeverTerminates bool
 	HookInvoluntary     bool
 }
 
 type SimTask struct {
-	ID        string
-	Name      string
-	Info      mesos.TaskInfo
-	Cmd       common.TaskCommandInfo
-	Agent     *Agent
-	ExecID    string
-	FwID      string
-	EnvID     string
-	Class     string
-	State     string // O2 state as the executor knows it
-	Mesos     mesos.TaskState
-	Script    *TaskScript
-	Commands  []ReceivedCommand
-	Killed    bool
-	KillSeq   int
-	LaunchSeq int
-	Ports     []uint64
-	Cpus, Mem float64
+	ID           string
+	Name         string
+	Info         mesos.TaskInfo
+	Cmd          common.TaskCommandInfo
+	Agent        *Agent
+	ExecID       string
+	FwID         string
+	EnvID        string
+	Class        string
+	State        string // O2 state as the executor knows it
+	Mesos        mesos.TaskState
+	Script       *TaskScript
+	Commands     []ReceivedCommand
+	Killed       bool
+	KillSeq      int
+	LaunchSeq    int
+	Ports        []uint64
+	Cpus, Mem    float64
 	terminalSent bool
 }
 
@@ -115,12 +115,12 @@ type ReceivedCommand struct {
 }
 
 type CallLog struct {
-	Seq   int
-	At    time.Duration
-	Inc   int
-	Type  string
-	FwID  string
-	Tasks []string // launched / killed / reconciled task ids
+	Seq    int
+	At     time.Duration
+	Inc    int
+	Type   string
+	FwID   string
+	Tasks  []string // launched / killed / reconciled task ids
 	Offers []string
 	Detail string
 	Err    string
@@ -135,19 +135,19 @@ type World struct {
 	S  *simrt.Sim
 	mu simsync.Mutex
 
-	Agents    []*Agent
-	Offers    map[string]*Offer
-	Tasks     map[string]*SimTask
-	TaskOrder []string
-	Calls     []CallLog
-	seq       int
-	offerN    int
-	fwN       int
-	FwID      string
+	Agents     []*Agent
+	Offers     map[string]*Offer
+	Tasks      map[string]*SimTask
+	TaskOrder  []string
+	Calls      []CallLog
+	seq        int
+	offerN     int
+	fwN        int
+	FwID       string
 	FwDeadline time.Duration
 
-	sub      *stream
-	updates  map[string]*update // uuid -> update awaiting ack
+	sub     *stream
+	updates map[string]*update // uuid -> update awaiting ack
 
 	// ScriptFor gives the behaviour of a launched task.
 	ScriptFor func(t *SimTask) *TaskScript
@@ -202,7 +202,7 @@ func (r *response) Decode(v encoding.Unmarshaler) error {
 
 type emptyResponse struct{}
 
-func (emptyResponse) Close() error               { return nil }
+func (emptyResponse) Close() error                      { return nil }
 func (emptyResponse) Decode(encoding.Unmarshaler) error { return io.EOF }
 
 // emit queues an event on the current subscription (dropped when there is none, as a master does).
@@ -849,7 +849,7 @@ func (w *World) message(m *scheduler.Call_Message, lg *CallLog) error {
 }
 
 // BasicTaskTerminated: the child of a basic/hook task exited; the executor reports it as a
-// device event and a terminal status.
+// device event.
 func (w *World) BasicTaskTerminated(t *SimTask, exit int, voluntary bool) {
 	final := mesos.TASK_FINISHED
 	if exit != 0 {
@@ -860,7 +860,9 @@ func (w *World) BasicTaskTerminated(t *SimTask, exit int, voluntary bool) {
 	bt.ExitCode, bt.VoluntaryTermination, bt.FinalMesosState = exit, voluntary, final
 	bt.SetLabels(map[string]string{"environmentId": t.EnvID})
 	w.sendToCore(t, bt, 0)
-	w.terminate(t, final, "child exited", 10*time.Millisecond)
+	// The real executor reports the end of a hook's / basic task's child with this device event
+	// only (executor/executable/basictaskcommon.go); the Mesos task itself stays RUNNING until it
+	// is killed, which is when TASK_FINISHED is reported.
 }
 
 // DeviceEvent makes the executor of t announce END_OF_STREAM / TASK_INTERNAL_ERROR.
